@@ -70,6 +70,7 @@ def run_case(case):
     dtype = lay.DTYPES[case['dtype']]
     eta = lay.eta_for(shape)
     PAT = [lay.global_array(shape, dtype, k) for k in range(2)]
+    PAT[1] = lay.zero_bands(PAT[1])          # the second pattern has exactly-zero bands (value-dependent shortcuts in the data movement)
     P = lay.poison_value(dtype)
     if case['kind'] == 'handler4':
         names = list(PHYS)
